@@ -11,13 +11,19 @@ CONSTANTS ScenLen, Seeds, StartSlots, MaxHeads,
           MaxHolds,     \* bound on the number of times an interface starts / stops delaying
           Stimuli,      \* which stimuli may occur (event names; "Unhold" = an interface stops delaying)
           Focus,        \* TRUE: the timer starts duty jobs only while a refresh is under way (search for job starts inside a refresh)
+          Tight,        \* TRUE: a change of the environment is followed by a call that meets it (a reorg by another reorg, a change of
+                        \* the accounts answer or a head event; a change of the accounts answer by a call that looks accounts up)
           Disjoint      \* TRUE: no two goroutines at work on one duty kind and epoch at a time (overlapping refreshes
                         \* are the open finding's ground: kept out of the families that look for anything else)
 
 VARIABLES hist, nHead, nHold,
           newer,        \* ids of tasks waiting for a duty reply that a later task of the same kind and epoch has overtaken
-          ins           \* number of duty jobs that started, and of clock ticks, while a refresh (covering the job's name) was under way
-svars == <<vars, hist, nHead, nHold, newer, ins>>
+          ins,          \* number of duty jobs that started, and of clock ticks, while a refresh (covering the job's name) was under way
+          early,        \* kinds of calls (att / prop / sync refresh, tick, prep) that have left early on this instance: accounts lookup
+                        \* failed or named nobody
+          aft,          \* kinds of calls that went through to asking the node for duties AFTER a call of that kind had left early
+          ovl           \* kinds of refresh of which two (of different epochs) have been under way at once on this instance
+svars == <<vars, hist, nHead, nHold, newer, ins, early, aft, ovl>>
 
 Mix(a, b) == ((a * 31 + b) * 1103 + 12345) % 30011
 R(seed, tag, a, b, c) == Mix(Mix(Mix(Mix(seed, tag), a), b), c)
@@ -60,9 +66,9 @@ OracleOf(c, seed) == [att |-> AttOf(c, seed), prop |-> PropOf(c, seed), sync |->
 SInit ==
     /\ Init
     /\ now \in StartSlots
-    /\ hist = <<[ev |-> "Reset", cfg |-> cfg, oracle |-> oracle, now |-> now]>>
+    /\ hist = <<[ev |-> "Reset", cfg |-> cfg, oracle |-> oracle, now |-> now, acct |-> acct]>>
     /\ nHead = 0 /\ nHold = 0 /\ newer = {}
-    /\ ins = 0
+    /\ ins = 0 /\ early = {} /\ aft = {} /\ ovl = {}
 
 H(e) == hist' = Append(hist, e)
 On(e) == e \in Stimuli
@@ -73,6 +79,19 @@ StartedInside ==
         /\ done'[x] > Get(done, x, 0)
         /\ \E t \in tasks : IsRefresh(t) /\ <<x.k, x.n>> \in CancelNames(t)
 RefreshUnderWay == \E t \in tasks : IsRefresh(t)
+
+(* Histories of calls on one instance.  A refresh has left early when it disappears from its     *)
+(* cancel loop / accounts lookup without going on to fetch; the ticker when its lookup failed or *)
+(* named nobody; prepare-for-epoch likewise.                                                    *)
+Gone(t) == \A u \in tasks' : u.id # t.id
+RefreshLeft == {t.k : t \in {x \in tasks : IsRefresh(x) /\ x.st \in {"cancel", "accounts"} /\ Gone(x)}}
+RefreshWentOn == {t.k : t \in {x \in tasks : IsRefresh(x) /\ x.st \in {"cancel", "accounts"}
+                                               /\ \E u \in tasks' : u.id = x.id /\ u.st = "fetch"}}
+Ticked == up /\ up' /\ latestTick' # latestTick
+Prepped == \E nm \in DOMAIN jobs : nm[1] = "prepepoch" /\ nm \notin DOMAIN jobs' /\ up /\ up'
+LeftEarly == RefreshLeft \cup (IF Ticked /\ ActiveNow = {} THEN {"tick"} ELSE {}) \cup (IF Prepped /\ ActiveNow = {} THEN {"prep"} ELSE {})
+WentOn == RefreshWentOn \cup (IF Ticked /\ ActiveNow # {} THEN {"tick"} ELSE {}) \cup (IF Prepped /\ ActiveNow # {} THEN {"prep"} ELSE {})
+Overlapping == {t.k : t \in {x \in tasks' : IsRefresh(x) /\ \E y \in tasks' : IsRefresh(y) /\ y.id # x.id /\ y.k = x.k}}
 
 ReleaseEv(c, late) == [ev |-> "Release", k |-> c[1], n |-> c[2], ver |-> c[3], jk |-> c[4], late |-> late]
 
@@ -87,21 +106,34 @@ SNext ==
        \/ On("Fire") /\ \E nm \in DOMAIN jobs, h \in BOOLEAN :
                 /\ Focus => (nm[1] # "prepepoch" /\ RefreshUnderWay)
                 /\ Fire(nm, h) /\ H([ev |-> "Fire", k |-> nm[1], n |-> nm[2], h |-> h]) /\ UNCHANGED nHead
+       \/ On("FirePrep") /\ \E nm \in DOMAIN jobs :        \* the timer starts prepare-for-epoch (only)
+                /\ nm[1] = "prepepoch"
+                /\ Fire(nm, FALSE) /\ H([ev |-> "Fire", k |-> nm[1], n |-> nm[2], h |-> FALSE]) /\ UNCHANGED nHead
        \/ Internal /\ UNCHANGED <<hist, nHead>>
+       \/ On("Accounts") /\ \E a \in AnswersFor(cfg) : SetAccounts(a) /\ H([ev |-> "Accounts", err |-> a.err, vals |-> a.vals]) /\ UNCHANGED nHead
        \/ \E k \in Gates, on \in BOOLEAN : On(IF on THEN "Hold" ELSE "Unhold") /\ nHold < MaxHolds /\ Hold(k, on) /\ H([ev |-> "Hold", k |-> k, on |-> on]) /\ nHold' = nHold + 1 /\ UNCHANGED nHead
        \/ On("Release") /\ \E t \in tasks :
                 \/ /\ Release(t)
-                   /\ \E c \in ParkedCalls(t) : H(ReleaseEv(c, t.st = "held" /\ (fetched[<<t.k, t.key>>] # t.ver \/ t.id \in newer)))
+                   /\ \E c \in ParkedCalls(t) : H(ReleaseEv(c, t.st = "held" /\ (Get(fetched, <<t.k, t.key>>, [ver |-> -1]).ver # t.ver \/ t.id \in newer)))
                    /\ UNCHANGED nHead
                 \/ /\ t.st = "sched"
                    /\ \E d \in t.duties : ReleaseSched(t, d) /\ H(ReleaseEv(<<"sched", d.slot, 0, d.jk>>, FALSE))
                    /\ UNCHANGED nHead
     /\ ins' = IF StartedInside \/ (now' # now /\ RefreshUnderWay) THEN ins + 1 ELSE ins
+    /\ IF up' /\ ~up THEN early' = {} /\ aft' = {} /\ ovl' = {}      \* a new instance
+       ELSE /\ early' = early \cup LeftEarly
+            /\ aft' = aft \cup (WentOn \cap early)
+            /\ ovl' = ovl \cup Overlapping
     /\ (hist' = hist \/ hist'[Len(hist')].ev # "Hold") => UNCHANGED nHold
     /\ LET spawned == {u \in tasks' : \A x \in tasks : x.id # u.id}
            waiting == {u \in tasks' : u.st = "held"}
        IN newer' = {u.id : u \in {w \in waiting : w.id \in newer \/ \E n \in spawned : n.k = w.k /\ n.key = w.key}}
     /\ Disjoint => NoOverlap'
+    /\ (Tight /\ hist' # hist /\ Len(hist) > 1) =>
+          LET last == hist[Len(hist)].ev
+              nxt == hist'[Len(hist')].ev
+          IN /\ last = "Reorg" => nxt \in {"Reorg", "Accounts", "HeadEvent"}
+             /\ last = "Accounts" => nxt \in {"HeadEvent", "EpochTick", "Fire", "Release", "Start"}
 
 \* configuration families (the cfg file picks one with Cfgs <- ...)
 CfgsSmall == {[p |-> 2, d |-> 12, ep |-> 2, prep |-> 1, fork |-> f, ft |-> t, attd |-> 4, propd |-> pd, syncd |-> 4, vals |-> {1, 2}] :
@@ -115,9 +147,15 @@ CfgsWide == {[p |-> 3, d |-> 6, ep |-> 4, prep |-> 2, fork |-> f, ft |-> t, attd
 
 CfgsSteps == {[p |-> 2, d |-> 12, ep |-> 2, prep |-> 1, fork |-> 9, ft |-> t, attd |-> 4, propd |-> 4, syncd |-> 4, vals |-> {1, 2}] :
                  t \in BOOLEAN}
+CfgsHist == {[p |-> 2, d |-> 12, ep |-> 2, prep |-> 1, fork |-> 0, ft |-> FALSE, attd |-> 4, propd |-> 4, syncd |-> 4, vals |-> {1, 2}]}
+CfgsHistNoSync == {[p |-> 2, d |-> 12, ep |-> 2, prep |-> 1, fork |-> 9, ft |-> FALSE, attd |-> 4, propd |-> 4, syncd |-> 4, vals |-> {1, 2}]}
 CfgsGatedOne == {[p |-> 2, d |-> 12, ep |-> 2, prep |-> 1, fork |-> 0, ft |-> FALSE, attd |-> 4, propd |-> 0, syncd |-> 4, vals |-> {1, 2}]}
 CfgsGated == {[p |-> 2, d |-> 12, ep |-> 2, prep |-> 1, fork |-> 0, ft |-> FALSE, attd |-> 4, propd |-> pd, syncd |-> 4, vals |-> {1, 2}] :
                  pd \in {0, 4}}
+
+\* accounts answers for the history families: the lookup fails, nobody is active, one validator is, all are
+AnswersSome(c) == {Answer(TRUE, {}), Answer(FALSE, {}), Answer(FALSE, {1}), Answer(FALSE, c.vals)}
+AnswersNone(c) == {Answer(TRUE, {}), Answer(FALSE, {})}
 
 \* bound for exhaustive enumeration of short behaviours
 HistBound == Len(hist) <= ScenLen + 1
@@ -133,6 +171,17 @@ Emit == (Len(hist) = ScenLen + 1 /\ Settled) => PrintT(ToJson(hist))
 (* between two calls of a refresh of its epoch, or the clock moved on to the next slot between  *)
 (* two calls of a refresh, run to its end, is written out.                                      *)
 EmitInside == (up /\ Quiescent /\ ins > 0) => PrintT(ToJson(hist))
+
+(* Histories on one instance: a behaviour in which a call (a refresh of some kind, the ticker,   *)
+(* prepare-for-epoch) went through to asking the node for duties after an earlier call of the    *)
+(* same kind had left early on the same instance, run to its end, is written out (with the      *)
+(* kinds, for the check's selection, in a first record that is not part of the scenario).       *)
+Meta == <<[ev |-> "Meta", aft |-> aft, ovl |-> ovl, early |-> early]>>
+EmitAfterEarly == (up /\ Quiescent /\ aft # {}) => PrintT(ToJson(Meta \o hist))
+(* ... and one in which two refreshes of one kind were under way at once (delaying accounts     *)
+(* provider: both wait for their accounts, the environment lets them through in either order,   *)
+(* possibly changing the answer in between), run to their end.                                  *)
+EmitOverlap == (up /\ Quiescent /\ ovl # {}) => PrintT(ToJson(Meta \o hist))
 
 (* Design-level counterexamples as scenarios: a behaviour at whose end a job made from an older  *)
 (* reply has survived (overlapping refreshes) is written out, to be replayed on the real code.  *)
